@@ -258,14 +258,20 @@ fn main() {
                 let rng = Stream { prefix, pos: 0, fair: Xoshiro256StarStar::seed_from_u64(seed.wrapping_add(si as u64)), words: 0 };
                 let t0 = std::time::Instant::now();
                 // the sample runs in its own thread: a sampler that never returns is data, not a stuck driver
-                let (tx, rx) = std::sync::mpsc::channel();
                 let dd = d;
-                std::thread::spawn(move || {
+                // 3 s of CPU time in the sampler (not of wall-clock time: the machine may be loaded)
+                let got = match verif_harness::watchdog::run(move || {
                     let mut rng = rng;
                     let r = catch_unwind(AssertUnwindSafe(|| dd.sample(&mut rng)));
-                    let _ = tx.send((r.ok(), rng.words));
-                });
-                let got = rx.recv_timeout(std::time::Duration::from_secs(3)).ok();
+                    (r.ok(), rng.words)
+                }, std::time::Duration::from_secs(3), std::time::Duration::from_secs(120)) {
+                    verif_harness::watchdog::Outcome::Done(x) => Some(x),
+                    verif_harness::watchdog::Outcome::Hang => None,
+                    verif_harness::watchdog::Outcome::Starved => {
+                        aborted = true;
+                        break;
+                    }
+                };
                 let ms = t0.elapsed().as_millis() as u64;
                 let maxset = *max > 0.0;
                 let (returned, hang, words, cls) = match got {
